@@ -21,6 +21,10 @@ MODULES = ['GProofs.C06', 'GProofs.C14']
 
 def gen_case(rng):
     name, lat = gem.lattice_pool(rng)
+    if rng.random() < 0.35:
+        # a left-handed set of cell vectors (two axes listed in swapped order, or one axis mirrored) is a legal cell
+        lat = lat[[1, 0, 2]] if rng.random() < 0.5 else lat * np.array([1, 1, -1])
+        name += '+left-handed'
     T = int(rng.integers(4, 40))
     species = [str(rng.choice(['Li', 'Na', 'O'])) for _ in range(int(rng.integers(1, 5)))]
     A = len(species)
